@@ -373,6 +373,89 @@ def work_dates(job):
     return acc.result()
 
 
+# ---------------------------------------------------------------------------------------------------------------------
+# function-library workloads: two threads evaluate formulas of the same function families on their own workbooks, with
+# a scheduling point at EVERY source line of the function libraries (excellib.py, lib/*.py except the argument wrappers)
+LIB_WORKLOADS = {
+    'round': ['=ROUND(14.95,-1)', '=ROUNDDOWN(5.25,1)', '=ROUNDUP(5.21,1)', '=TRUNC(-5.25,1)', '=MOD(7.5,2)', '=CEILING(0.3,0.1)', '=ROUND(2.5,0)'],
+    'round2': ['=ROUNDUP(1.01,1)', '=ROUNDDOWN(2.99,1)', '=ROUND(0.125,2)', '=FLOOR(0.7,0.1)', '=ROUNDUP(-2.5,0)', '=MOD(-7,3)', '=TRUNC(9.99)'],
+    'date': ['=YEAR(45000)', '=MONTH(45000)', '=DAY(45000)', '=EDATE(45000,1)', '=EOMONTH(32,0)', '=WEEKDAY(45001)', '=DATE(2023,3,15)', '=HOUR(0.75)'],
+    'date2': ['=YEAR(36526)', '=MONTH(36526)', '=DAY(36526)', '=EOMONTH(146128,1)', '=EDATE(59,12)', '=DAY(45000)', '=DATE(1900,14,31)', '=SECOND(0.5000116)'],
+    'text': ['=TEXT(2.5,"0")', '=TEXT(0.125,"0.00")', '=TEXT(1234.5,"#,##0")', '=SUBSTITUTE("abcabc","b","X",2)', '=FIND("c","abcabc",4)', '=TRIM("  a  b ")',
+             '=TEXT(0.285,"0%")', '=LEFT(2.50,2)'],
+    'lookup': ['=MATCH("b*",A1:A4,0)', '=VLOOKUP(2,C1:D3,2,FALSE)', '=COUNTIF(A1:A4,"a?c")', '=SUMIF(C1:C3,">1",D1:D3)', '=MATCH(2.5,C1:C3,1)', '=DEC2BIN(5,8)',
+               '=HEX2DEC("FF")'],
+}
+LIB_CELLS = {'A1': 'abc', 'A2': 'bcd', 'A3': 'a.c', 'A4': 'b', 'C1': 1, 'C2': 2, 'C3': 3, 'D1': 10, 'D2': 20, 'D3': 30}
+LIB_FILES = ('/pycel/excellib.py', '/pycel/lib/date_time.py', '/pycel/lib/text.py', '/pycel/lib/lookup.py', '/pycel/lib/stats.py',
+             '/pycel/lib/engineering.py', '/pycel/lib/logical.py', '/pycel/lib/information.py')
+LIB_PAIRS_QUICK = [('round', 'round2'), ('round2', 'round'), ('date', 'date2'), ('date2', 'date'), ('text', 'round'), ('round', 'text'),
+                   ('text', 'text'), ('lookup', 'lookup'), ('date', 'date'), ('round', 'round'), ('lookup', 'text')]
+
+
+def w_lib(name):
+    def fn():
+        cells = dict(LIB_CELLS)
+        for i, f in enumerate(LIB_WORKLOADS[name]):
+            cells[f'F{i + 1}'] = f
+        m = W.compile_inmem(S(cells))
+        return [tagged(m.evaluate(f'S!F{i + 1}')) for i in range(len(LIB_WORKLOADS[name]))]
+    return fn
+
+
+def lib_tracer(holder):
+    def local(frame, event, arg):
+        if event == 'line':
+            s = holder[0]
+            if s is not None:
+                s.point(f'{frame.f_code.co_name}:{frame.f_lineno}')
+        return local
+
+    def tracer(frame, event, arg):
+        if event != 'call':
+            return None
+        fn = frame.f_code.co_filename
+        if any(fn.endswith(x) for x in LIB_FILES):
+            return local
+        return None
+    return tracer
+
+
+def work_lib(job):
+    n0, n1, bound = job
+    acc = Acc()
+    holder = [None]
+    refs = [w_lib(n0)(), w_lib(n1)()]
+    pair = f'lib:{n0}|lib:{n1}'
+
+    def run_schedule(prefix):
+        s = sched.Sched(prefix)
+        holder[0] = s
+        s.out = s.run(w_lib(n0), w_lib(n1), tracer=lib_tracer(holder))
+        holder[0] = None
+        return s
+
+    def on_result(prefix, s):
+        acc.add('transitions', s.k)
+        if prefix:
+            acc.add('distinct_nontrivial')
+        for tid in (0, 1):
+            o = s.out[tid]
+            case = dict(kind='schedule', pair=pair, warm=False, fine='lib', schedule=list(prefix), npre=len(prefix), thread=tid)
+            if o[0] != 'ok':
+                acc.violation(dict(case, verdict='raised', exc=o[1]), f'{pair} schedule {prefix}: thread {tid} raised {o[1]}: {o[2]}')
+            elif o[1] != refs[tid]:
+                acc.outcome(repr(o[1])[:200])
+                acc.violation(dict(case, verdict='differs', observed=jsonable(o[1]), expected=jsonable(refs[tid])),
+                              f'{pair} schedule {prefix}: thread {tid} got {o[1]} but alone it gets {refs[tid]}')
+    n = sched.explore(run_schedule, bound, on_result)
+    acc.add('evaluations', n)
+    acc.add('states', n)
+    acc.add('pairs')
+    acc.add('lib_pairs')
+    return acc.result()
+
+
 def run(ctx):
     jobs = []
     pairs = list(itertools.product(WORKLOADS, repeat=2))
@@ -401,6 +484,8 @@ def run(ctx):
     jobs.sort(key=lambda j: -j[3])
     ctx.pmap(work, jobs, timeout=6000)
     ctx.pmap(work_dates, [(k, 16) for k in range(16)], timeout=6000)
+    lib_pairs = list(itertools.product(sorted(LIB_WORKLOADS), repeat=2)) if ctx.thorough else LIB_PAIRS_QUICK
+    ctx.pmap(work_lib, [(a, b, 1) for a, b in lib_pairs], timeout=6000)
     ctx.counts['traces_validated_against_impl'] = ctx.counts.get('evaluations', 0)
     ctx.extra['workloads'] = WORKLOADS
     ctx.extra['preemption_bound'] = ('1 for all 128 pair x warm combinations, 2 for the 16 iterative/array pairs' if not ctx.thorough
@@ -409,6 +494,11 @@ def run(ctx):
 
 
 def replay(case):
+    if case.get('fine') == 'lib':
+        n0, n1 = [x.split(':')[1] for x in case['pair'].split('|')]
+        r = work_lib((n0, n1, 1))
+        hits = [m for c, m in r['violations'] if c.get('schedule') == case.get('schedule') and c.get('thread') == case.get('thread')]
+        return bool(hits), '\n'.join(hits[:2]) or 'no violation'
     if case.get('fine') == 'dates':
         hits = []
         for k in range(16):
